@@ -154,10 +154,16 @@ class Executor:
         if isinstance(ty, TSet) and isinstance(sv.t, TList) and sv.t.elem == ty.elem:
             # abstraction of a list by its membership set: exact for `in`
             ln, at = l_len(sv.t, sv.z), l_at(sv.t, sv.z)
+            sl = z3.simplify(ln)
+            if z3.is_int_value(sl):
+                s = z3.K(ty.elem.sort(), z3.BoolVal(False))
+                for i in range(sl.as_long()):
+                    s = z3.Store(s, z3.simplify(z3.Select(at, i)), z3.BoolVal(True))
+                return SV(ty, s)
             s = fresh('setof', ty.sort())
             if st is not None:
-                x = None
-                st.assume(FA(ty.elem, lambda x: z3.Select(s, x) == EX('idx', lambda i: z3.And(0 <= i, i < ln, z3.Select(at, i) == x))))
+                st.assume(FA(ty.elem, lambda x: z3.Implies(z3.Select(s, x), EX('idx', lambda i: z3.And(0 <= i, i < ln, z3.Select(at, i) == x)))),
+                          FA('idx', lambda i: z3.Implies(z3.And(0 <= i, i < ln), z3.Select(s, z3.Select(at, i)))))
             return SV(ty, s)
         if isinstance(ty, TList) and isinstance(sv.t, TList) and sv.t.elem is NONE:
             # the empty display []
